@@ -201,6 +201,8 @@ pub struct Judge<'a> {
     pub a: &'a Agreed,
     pub cid: ChannelId,
     pub template: &'a Trace,
+    /// property id used in violation signatures (C01; C18 reuses one plan)
+    pub prop: &'static str,
 }
 
 /// does (s1,s2) verify on msg under the merchant key, by the reference *and* by the library?
@@ -305,7 +307,7 @@ impl<'a> Judge<'a> {
                     let _ = agreed_close;
                 } else if on_hidden_close || on_hidden_state {
                     c.violation(
-                        &format!("C01 forgery-accepted {}", label),
+                        &format!("{} forgery-accepted {}", self.prop, label),
                         json!({
                             "label": label,
                             "agreed": agreed_json(self.a),
@@ -356,7 +358,7 @@ fn run_tuple(c: &mut Ctx, m: &'static Merchant, template: &Trace, label: &str, c
         merch,
         context,
     };
-    let j = Judge { m, a: &a, cid, template };
+    let j = Judge { m, a: &a, cid, template, prop: "C01" };
     // positive control through the same machinery
     {
         let n = Scalar::random(&mut rng);
